@@ -102,6 +102,28 @@ CHECKS = {
         "out": ["byte-level input (C02)", "real TLS", "ServerBuilder.buildAuthenticate adapters"],
         "assumptions": ["Authenticate returns a non-nil result when its error is nil; callbacks return normally"],
     },
+    "C05": {
+        "level_text": "The real channel.processCommand / trySubmitCommandResult / receiveFromTransport run as symbolic threads: two requester goroutines with "
+                      "symbolic ids (so 'two requests share an id' is a solver decision), a receiver fed a scripted sequence of responses with symbolic ids "
+                      "(matching, foreign, duplicate, late), contexts that time out; every thread choice at blocking points (and up to P pre-emptions at "
+                      "lock/channel operations) is explored. Verdicts: a request completes only with a response bearing its id or with its context's error; "
+                      "each response is delivered at most once and is not lost (unless swallowed by a request timing out at that moment); an unmatched "
+                      "response surfaces on the response stream; a pending id is refused without disturbing the pending request; ids are reusable after "
+                      "completion; the pending table is empty at the end and the receiver is never stuck on a requester.",
+        "level_note": "Trusted: SSA->SMT executor, the bounded cooperative scheduler (switches at blocking points and at <= P pre-emption points at "
+                      "synchronisation operations; no instruction-level races), z3. Bounds: 2 requesters, 2 / 3 responses, P = 1 / 2. Schedule-dependent "
+                      "witnesses are replayed natively with up to 20 attempts.",
+        "runs": [
+            {"harness": "HarnessC05Match", "grid": {"order": [0, 1]}, "params": {"sched": 1, "P": 1, "requesters": 2, "responses": 2},
+             "reach": ["c05:settled"], "threads": True, "tier": "quick"},
+            {"harness": "HarnessC05Match", "grid": {"order": [0, 1]}, "params": {"sched": 1, "P": 2, "requesters": 2, "responses": 3},
+             "reach": ["c05:settled"], "threads": True, "tier": "thorough"},
+            {"harness": "HarnessC05Reuse", "params": {"sched": 1, "P": 1}, "reach": ["c05:second-request-returned"], "threads": True},
+        ],
+        "bounds": {"quick": {"requesters": 2, "responses": 2, "preemptions": 1}, "thorough": {"requesters": 2, "responses": 3, "preemptions": 2}},
+        "out": ["more than two concurrent requesters", "instruction-level data races"],
+        "assumptions": [],
+    },
     "C06": {
         "level_text": "(1) From a channel in an arbitrary state (symbolic state member, client/server, transport up/down) each of SendMessage, "
                       "SendNotification, SendRequestCommand, SendResponseCommand, ProcessCommand and the dispatch loop is executed symbolically: outside "
